@@ -201,6 +201,7 @@ def rule_flow(ctx):
     tgt = at["target"]
     removes = [blk for blk, t in Q.calls(b, "::remove") if "TtlCache" in callee_of(t)]
     arms = {}
+    else_arms = {}
     # collect arms of the match on add_bytes result (nested Ok/Err then Some/None)
     for blk in sorted(b.reachable):
         be = T.branch_edges(b, S, blk)
@@ -209,8 +210,13 @@ def rule_flow(ctx):
         atom, labels = be
         if atom[0] == "variant" and T.has_call(atom[1], "add_bytes"):
             for succ, lab in labels.items():
+                # `let Ok(x) = r else { .. }`: the else edge is the one remaining variant
+                if isinstance(lab, tuple) and lab and lab[0] == "else" and len(lab[1]) == 1:
+                    else_arms.setdefault(lab[1][0], succ)
                 if isinstance(lab, str):
                     arms[lab] = succ
+    for k_, v_ in else_arms.items():
+        arms.setdefault(k_, v_)
     for arm, need in (("Some", True), ("Err", True), ("None", False)):
         if arm not in arms:
             ctx.cannot("R3", "process_tcp_packet:arm:" + arm, "arm not found (have %s)" % sorted(arms), ctx.loc(b, ablk))
